@@ -140,34 +140,76 @@ Proof.
     + subst c. repeat split; lia.
 Qed.
 
-Lemma escape_at_clean : forall s, clean_text s -> clean_text (escape_at s).
+Lemma escape_start_clean : forall g s, clean_text s -> clean_text (escape_start g s).
 Proof.
-  induction s as [|c r IH]; intros H; [exact H|]. cbn [escape_at].
-  destruct ((c =? SP) || (c =? TAB)).
+  induction s as [|c r IH]; intros H; [exact H|]. cbn [escape_start].
+  destruct (is_blank c).
   - intros x [Hx|Hx]; [subst x; apply H; left; reflexivity|]. apply IH; [|exact Hx].
     intros y Hy. apply H. right. exact Hy.
-  - destruct (c =? AT); [|exact H].
+  - destruct ((c =? AT) || (g && continues_tag (c :: r))); [|exact H].
     intros x [Hx|Hx]; [subst x; unfold BSL, NL, CR; repeat split; lia|]. apply H. exact Hx.
 Qed.
 
-Lemma escape_at_no_tag : forall s, no_tag_start (escape_at s) = true.
+Lemma escape_start_no_tag : forall g s, no_tag_start (escape_start g s) = true.
 Proof.
-  induction s as [|c r IH]; [reflexivity|]. cbn [escape_at].
-  destruct ((c =? SP) || (c =? TAB)) eqn:E1.
-  - cbn [no_tag_start]. rewrite E1. exact IH.
-  - destruct (c =? AT) eqn:E2.
+  induction s as [|c r IH]; [reflexivity|]. cbn [escape_start].
+  destruct (is_blank c) eqn:E1.
+  - cbn [no_tag_start]. unfold is_blank in E1. rewrite E1. exact IH.
+  - destruct (c =? AT) eqn:E2; cbn [orb].
     + reflexivity.
-    + cbn [no_tag_start]. rewrite E1, E2. reflexivity.
+    + unfold is_blank in E1. destruct (g && continues_tag (c :: r)).
+      * reflexivity.
+      * cbn [no_tag_start]. rewrite E1, E2. reflexivity.
 Qed.
 
-Lemma doc_comment_lines_ok : forall t l,
-  In l (doc_comment_lines t) -> clean_text l /\ no_tag_start l = true.
+Lemma in_guard_lines : forall ps g l, In l (guard_lines g ps) -> exists g' p, In p ps /\ l = escape_start g' p.
 Proof.
-  intros t l H. unfold doc_comment_lines in H. apply in_flat_map in H. destruct H as [ln [_ H]].
-  apply in_map_iff in H. destruct H as [p [E _]]. subst l. split.
-  - apply escape_at_clean, clean_piece_clean.
-  - apply escape_at_no_tag.
+  induction ps as [|p r IH]; intros g l H; [destruct H|]. cbn [guard_lines] in H. destruct H as [H|H].
+  - exists g, p. split; [left; reflexivity|symmetry; exact H].
+  - destruct (IH _ _ H) as [g' [p' [Hp El]]]. exists g', p'. split; [right; exact Hp|exact El].
 Qed.
+
+Lemma doc_comment_lines_ok : forall a t l,
+  In l (doc_comment_lines a t) -> clean_text l /\ no_tag_start l = true.
+Proof.
+  intros a t l H. unfold doc_comment_lines in H. apply in_guard_lines in H. destruct H as [g [p [Hp E]]].
+  apply in_map_iff in Hp. destruct Hp as [x [Ex _]]. subst p l. split.
+  - apply escape_start_clean, clean_piece_clean.
+  - apply escape_start_no_tag.
+Qed.
+
+Lemma escape_start_blank : forall g s, blank_line s = true -> escape_start g s = s.
+Proof.
+  induction s as [|c r IH]; intros H; [reflexivity|]. cbn [blank_line forallb] in H.
+  apply andb_true_iff in H. destruct H as [Hc Hr]. cbn [escape_start]. rewrite Hc. f_equal. apply IH. exact Hr.
+Qed.
+
+Lemma escape_start_guarded : forall s,
+  blank_line s = false ->
+  blank_line (escape_start true s) = false /\ continues_tag (skip_blanks (escape_start true s)) = false.
+Proof.
+  induction s as [|c r IH]; intros H; [discriminate H|]. cbn [blank_line forallb] in H. cbn [escape_start].
+  destruct (is_blank c) eqn:Ec.
+  - cbn [andb] in H. destruct (IH H) as [I1 I2]. split.
+    + cbn [blank_line forallb]. rewrite Ec. exact I1.
+    + cbn [skip_blanks]. rewrite Ec. exact I2.
+  - destruct ((c =? AT) || (true && continues_tag (c :: r))) eqn:E.
+    + split; [reflexivity|]. reflexivity.
+    + split; [cbn [blank_line forallb]; rewrite Ec; reflexivity|].
+      cbn [skip_blanks]. rewrite Ec. apply orb_false_iff in E. destruct E as [_ E]. exact E.
+Qed.
+
+(** after a tag line, the first non-blank line of the block cannot continue the tag *)
+Lemma guard_lines_no_continuation : forall ps, no_continuation (guard_lines true ps) = true.
+Proof.
+  induction ps as [|p r IH]; [reflexivity|]. cbn [guard_lines no_continuation andb].
+  destruct (blank_line p) eqn:E.
+  - rewrite (escape_start_blank true p E), E. exact IH.
+  - destruct (escape_start_guarded p E) as [H1 H2]. rewrite H1, H2. reflexivity.
+Qed.
+
+Lemma field_description_guarded : forall t, no_continuation (doc_comment_lines true t) = true.
+Proof. intros t. apply guard_lines_no_continuation. Qed.
 
 Lemma clean_app : forall a b, clean_text a -> clean_text b -> clean_text (a ++ b).
 Proof. intros a b Ha Hb c H. apply in_app_or in H. destruct H; [apply Ha|apply Hb]; assumption. Qed.
@@ -184,7 +226,7 @@ Lemma single_line_clean : forall t, clean_text (single_line t).
 Proof.
   intros t. unfold single_line. apply join_clean.
   - intros c [H|[]]. subst c. unfold SP, NL, CR. repeat split; lia.
-  - apply Forall_forall. intros l H. apply (doc_comment_lines_ok t l H).
+  - apply Forall_forall. intros l H. apply (doc_comment_lines_ok false t l H).
 Qed.
 
 (* ================================================================== type names *)
@@ -678,13 +720,22 @@ Section Lines.
   Proof.
     intros t. unfold write_doc_comment. apply Forall_forall. intros l H.
     apply in_map_iff in H. destruct H as [x [E Hx]]. subst l.
-    destruct (doc_comment_lines_ok t x Hx) as [Hc Hn]. split.
+    destruct (doc_comment_lines_ok false t x Hx) as [Hc Hn]. split.
+    - apply L_doc; assumption.
+    - apply clean_app; [apply cleanb_clean; reflexivity|exact Hc].
+  Qed.
+
+  Lemma field_comment_good : forall t, Forall good_line (write_field_comment t).
+  Proof.
+    intros t. unfold write_field_comment. apply Forall_forall. intros l H.
+    apply in_map_iff in H. destruct H as [x [E Hx]]. subst l.
+    destruct (doc_comment_lines_ok true t x Hx) as [Hc Hn]. split.
     - apply L_doc; assumption.
     - apply clean_app; [apply cleanb_clean; reflexivity|exact Hc].
   Qed.
 
   Lemma opt_doc_good : forall d, Forall good_line (opt_doc d).
-  Proof. intros [t|]; [apply doc_comment_good|constructor]. Qed.
+  Proof. intros [t|]; [apply field_comment_good|constructor]. Qed.
 
   Lemma desc_lines_good : forall schema, Forall good_line (desc_lines schema).
   Proof. intros schema. unfold desc_lines. destruct (get_str "description" schema); [apply doc_comment_good|constructor]. Qed.
